@@ -246,7 +246,10 @@ def gen_par_stage(rng, *, kinds=('prefetch', 'parmap'), backends=('t',),
     if backend == 'False':
         backend = False
     st = {'op': 'prefetch', 'w': w, 'b': b, 'backend': backend}
-    if rng.random() < catch_p:
+    # catch_filter_exception ships a local closure to the workers: the
+    # pickle-based pools refuse it loudly (cannot pickle), so it is only
+    # generated for backends that can serialise closures.
+    if rng.random() < catch_p and backend not in ('concurrent_mp', 'multiprocessing'):
         st['catch'] = rng.choice([True, True, 'value', ['filter', 'key'],
                                   'filter_sub'])
     return st
